@@ -908,6 +908,10 @@ class _Compressed2d(GCXS):
         coo = COO.from_numpy(x, fill_value=fill_value, idx_dtype=idx_dtype)
         return cls.from_coo(coo, cls.class_compressed_axes, idx_dtype)
 
+    def astype(self, dtype, casting="unsafe", copy=True):
+        ret = super().astype(dtype, casting=casting, copy=copy)
+        return ret if ret is self else type(self)(ret)
+
 
 class CSR(_Compressed2d):
     """
